@@ -177,4 +177,67 @@ Section MainCombine.
                 m c b lazy runs out tr r Hc H Hstrict) as [H1 _].
     exact H1.
   Qed.
+
+  (* ---- the result is canonical: it is determined by the key set and the per-key totals of the input --------------- *)
+  Section Canonical.
+    Variable Q : A -> Prop.            (* well-formedness of a record, preserved by the combiner *)
+    Hypothesis combine_Q : forall a b c, Q a -> Q b -> combine a b = Some c -> Q c.
+    Hypothesis Q_lt : forall a, Q a -> cnt a < W.
+    Hypothesis Q_det : forall a b, Q a -> Q b -> key a = key b -> cnt a = cnt b -> a = b.
+
+    Notation same_keys := (same_keys key).
+
+    Lemma block_sorted_Q : forall blocks runs, block_sorted lt blocks runs -> Forall (Forall Q) blocks -> Forall (Forall Q) runs.
+    Proof.
+      intros blocks runs Hbs HQ. unfold block_sorted in Hbs.
+      assert (HQ' : Forall (Forall Q) (filter nonempty blocks)).
+      { rewrite Forall_forall in *. intros x Hx. apply HQ. apply filter_In in Hx. apply Hx. }
+      set (fb := filter nonempty blocks) in *. clearbody fb. clear HQ.
+      induction Hbs as [|blk rn bs rs [H1 H2] _ IH]; [constructor|].
+      inversion HQ' as [|? ? Hq1 Hq2]; subst. constructor; [|apply IH; exact Hq2].
+      rewrite Forall_forall in *. intros a Ha. apply Hq1. eapply Permutation_in; eassumption.
+    Qed.
+
+    Theorem combiner_full : forall m c b lazy blocks runs, sort_ctor es c = CtorOk b -> block_sorted lt blocks runs ->
+      Forall (fun blk => NoDup (map key blk)) blocks -> Forall (Forall Q) blocks ->
+      exists out tr r, sort_dispatch lt combine es m b (cfg_total c) lazy runs = (SortOk out tr, r) /\
+                       strict lt out /\ same_totals (concat blocks) out /\ same_keys (concat blocks) out /\ Forall Q out.
+    Proof.
+      intros m c b lazy blocks runs Hc Hbs Hnd HQ.
+      destruct (combiner_dupfree m c b lazy blocks runs Hc Hbs Hnd) as [out [tr [r [H [Hs Ht]]]]]. exists out, tr, r.
+      split; [exact H|]. split; [exact Hs|]. split; [exact Ht|].
+      destruct (block_sorted_runs lt _ _ Hbs) as [_ Hp].
+      destruct (dispatch_sound lt combine es same_keys
+                  (same_keys_refl key) (same_keys_trans key) (same_keys_app key)
+                  (merge_group_keys lt combine key cnt W combine_spec)
+                  (Forall Q) (Forall_nil Q)
+                  (merge_group_Forall lt combine Q combine_Q)
+                  m c b lazy runs out tr r Hc H (block_sorted_Q _ _ Hbs HQ)) as [H1 H2].
+      split; [|exact H1].
+      eapply same_keys_trans; [apply same_keys_perm; apply Permutation_sym; exact Hp|exact H2].
+    Qed.
+
+    Theorem combiner_canonical :
+      forall m1 c1 b1 lazy1 blocks1 runs1 out1 tr1 r1 m2 c2 b2 lazy2 blocks2 runs2 out2 tr2 r2,
+      sort_ctor es c1 = CtorOk b1 -> sort_ctor es c2 = CtorOk b2 ->
+      block_sorted lt blocks1 runs1 -> block_sorted lt blocks2 runs2 ->
+      Forall (fun blk => NoDup (map key blk)) blocks1 -> Forall (fun blk => NoDup (map key blk)) blocks2 ->
+      Forall (Forall Q) blocks1 -> Forall (Forall Q) blocks2 ->
+      same_totals (concat blocks1) (concat blocks2) -> same_keys (concat blocks1) (concat blocks2) ->
+      sort_dispatch lt combine es m1 b1 (cfg_total c1) lazy1 runs1 = (SortOk out1 tr1, r1) ->
+      sort_dispatch lt combine es m2 b2 (cfg_total c2) lazy2 runs2 = (SortOk out2 tr2, r2) ->
+      out1 = out2.
+    Proof.
+      intros m1 c1 b1 lazy1 blocks1 runs1 out1 tr1 r1 m2 c2 b2 lazy2 blocks2 runs2 out2 tr2 r2
+             Hc1 Hc2 Hb1 Hb2 Hn1 Hn2 HQ1 HQ2 Ht Hk E1 E2.
+      destruct (combiner_full m1 c1 b1 lazy1 blocks1 runs1 Hc1 Hb1 Hn1 HQ1) as [o1 [t1 [s1 [F1 [S1 [T1 [K1 Q1]]]]]]].
+      destruct (combiner_full m2 c2 b2 lazy2 blocks2 runs2 Hc2 Hb2 Hn2 HQ2) as [o2 [t2 [s2 [F2 [S2 [T2 [K2 Q2]]]]]]].
+      rewrite E1 in F1. rewrite E2 in F2. inversion F1; subst o1 t1 s1. inversion F2; subst o2 t2 s2.
+      apply (strict_unique lt key key_eq_dec cnt W W_pos lt_asym lt_key Q Q_lt Q_det); try assumption.
+      - eapply same_keys_trans; [|exact K2]. eapply same_keys_trans; [|exact Hk].
+        intro k. symmetry. apply K1.
+      - eapply same_totals_trans; [|exact T2]. eapply same_totals_trans; [|exact Ht].
+        intro k. symmetry. apply T1.
+    Qed.
+  End Canonical.
 End MainCombine.
